@@ -253,6 +253,12 @@ def run_once(ctx, cfg, flags, ivs, tag):
     killer = Killer({'op': cfg['op'],
                      'daughters_parallel': flags['daughters']})
     extra_p, extra_t = {}, {}
+    deep = None
+    if cfg.get('heartbeat'):
+        # a parallel process two levels below the compartment that the killer
+        # deletes / divides / moves (agents/a/org/deep)
+        deep = Grow({'who': 'e', '_parallel': flags['q']})
+        CTX['ts']['e'] = 3
     if cfg.get('heartbeat'):
         extra_p['hb'] = Heartbeat({'_parallel': flags['q']})
         extra_t['hb'] = {}
@@ -262,11 +268,15 @@ def run_once(ctx, cfg, flags, ivs, tag):
     e = None
     try:
         e = Engine(
-            processes=dict({'k': killer, 'agents': {'a': {'grow': grow}},
+            processes=dict({'k': killer, 'agents': {'a': dict(
+                {'grow': grow}, **({'org': {'deep': deep}} if deep else {}))},
                             'q': other}, **extra_p),
             steps={'st': step}, flow={'st': []},
             topology=dict({'k': {'agents': ('agents',), 'away': ('away',)},
-                           'agents': {'a': {'grow': {'s': ('s',)}}},
+                           'agents': {'a': dict(
+                               {'grow': {'s': ('s',)}},
+                               **({'org': {'deep': {'s': ('s',)}}}
+                                  if deep else {}))},
                            'q': {'s': ('qs',)}, 'st': {'s': ('qs',)}},
                           **extra_t),
             emitter={'type': 'vsym_rec', 'tag': tag}, display_info=False,
